@@ -800,7 +800,14 @@ func inlineCall(prog *load.Program, pk *load.Package, f *ast.File, src []byte, t
 					decls = append(decls, "var "+id.Name+" "+resultType(k)+"\n_ = "+id.Name)
 				}
 			}
-			core := strings.Join(decls, "\n") + "\n" + splice(targets)
+			// results travel through fresh temporaries: a name declared inside the helper must not capture a target
+			var tmps, tmpDecls []string
+			for k := range targets {
+				t := fmt.Sprintf("ret%d_%s", k, label)
+				tmps = append(tmps, t)
+				tmpDecls = append(tmpDecls, "var "+t+" "+resultType(k))
+			}
+			core := strings.Join(decls, "\n") + "\n" + strings.Join(tmpDecls, "\n") + "\n" + splice(tmps) + "\n" + strings.Join(targets, ", ") + " = " + strings.Join(tmps, ", ")
 			// the init clause of an if / switch: keep the scope by wrapping the whole statement in a block
 			if len(stack) >= 3 {
 				switch gp := stack[len(stack)-3].(type) {
